@@ -47,10 +47,10 @@ CAP = {
     "xyz.gz":    dict(u=10.0, q=1e-3,  time=None,  cell=None, reader="xyz"),
     "lammpstrj": dict(u=10.0, q=1e-3,  time=None,  cell="full", reader="lammpstrj", needs_cell=True),
     "gro":       dict(u=1.0,  q=None,  time="text", cell="vectors5", reader="gro"),
-    "pdb":       dict(u=10.0, q=1e-3,  time=None,  cell="single", reader="pdb"),
-    "pdb.gz":    dict(u=10.0, q=1e-3,  time=None,  cell="single", reader="pdb"),
+    "pdb":       dict(u=10.0, q=1e-3,  time=None,  cell="single", reader="pdb", lim=(-999.999, 9999.999)),
+    "pdb.gz":    dict(u=10.0, q=1e-3,  time=None,  cell="single", reader="pdb", lim=(-999.999, 9999.999)),
     "dtr":       dict(u=10.0, q=0.0,   time="f64", cell="full", reader=None, needs_cell=True),
-    "rst7":      dict(u=10.0, q=1e-7,  time="e7",  cell="full7", reader="rst7", restart=True),
+    "rst7":      dict(u=10.0, q=1e-7,  time="e7",  cell="full7", reader="rst7", restart=True, lim=(-999.9999999, 9999.9999999)),
     "ncrst":     dict(u=10.0, q=0.0,   time="f64", cell="full", reader="nc", restart=True),
 }
 NEEDS_TOP = {"xtc", "trr", "dcd", "nc", "netcdf", "ncdf", "ncrst", "crd", "mdcrd", "lammpstrj", "xyz", "xyz.gz", "rst7", "dtr"}
@@ -114,7 +114,7 @@ def expected_failure(ext, cap, cell, mag, n_atoms, t):
     if lim is not None:
         x = t.xyz * cap["u"]
         if x.min() <= lim[0] or x.max() >= lim[1]:
-            return "value does not fit the fixed-width field (documented overflow error)"
+            return "value does not fit the fixed-width field"
     return None
 
 
@@ -316,6 +316,11 @@ def run_case(case, scratch, seed):
             if bf:
                 kw["bfactors"] = np.arange(n_atoms) * 0.5
         why = expected_failure(ext, cap, cell, mag, n_atoms, t)
+        if why is not None and why.startswith("value does not fit"):
+            # beyond the format's field limit: outside the property's quantifier ("magnitudes ... to the format's field
+            # limit"); whether the writer raises, degrades precision or writes touching fields is not judged
+            st["refused"] = "outside the field limit (not judged)"
+            return viol, st
         try:
             t.save(path, **kw)
             r = _load_back(path, ext, t.topology, n_frames)
@@ -378,7 +383,7 @@ def cases(quick):
     atoms = [1, 9, 10] if quick else [1, 2, 9, 10, 13]
     frames = [1, 3] if quick else [1, 2, 3]
     cells = ["none", "ortho", "varying"] if quick else ["none", "cubic", "ortho", "triclinic", "varying"]
-    mags = [1.0, 90.0] if quick else [1e-3, 1.0, 90.0]
+    mags = [1.0, 90.0] if quick else [1e-3, 1.0, 90.0, 950.0]     # 950 nm = 9500 A: just under the %8.3f field limit
     signs = ["mixed"] if quick else ["mixed", "positive"]
     times = ["nonuniform"] if quick else ["default", "uniform", "nonuniform"]
     out = []
